@@ -111,7 +111,8 @@ def pigeon(logic, pigeons, holes, rng=None, big=False):
 
 def lia_cuts(rng):
     """small-coefficient QF_LIA problems whose relaxation is rational (parity constraints): the LIA
-    solver reaches its cut heuristics; no number leaves the machine word, so the pool is not involved"""
+    solver reaches its cut heuristics (LASolver::shouldTryCutFromProof).  Note that even these touch
+    FastRational::pool: the constructor from text takes a pool cell for every parsed numeral."""
     n = rng.randint(2, 4)
     xs = ["x%d" % i for i in range(n)]
     out = ["(set-logic QF_LIA)"] + ["(declare-fun %s () Int)" % x for x in xs]
